@@ -276,10 +276,12 @@ class Executor:
         :param max_qubits: Maximum number of qubits the application is allowed to
             allocate at the same time.
         """
+        # Create the shared memory first: this raises if the application is already
+        # registered, before any state of the running application is touched.
+        self._new_shared_memory(app_id=app_id)
         self.allocate_new_qubit_unit_module(app_id=app_id, num_qubits=max_qubits)
         self._setup_registers(app_id=app_id)
         self._setup_arrays(app_id=app_id)
-        self._new_shared_memory(app_id=app_id)
 
     def _setup_registers(self, app_id: int) -> None:
         """Setup registers for application"""
